@@ -544,8 +544,10 @@ def _run_limit(case, viol, probes, log):
             exc = None
             try:
                 gen = sharepoint2text.read_file(p, max_file_size=L) if L != 100 * 1024 * 1024 or True else None
+                ev_growth = None
                 if grows:
                     fsseam.AUDIT.enabled = False
+                    ev_growth = len(fsseam.AUDIT.events)
                     with open(p, "r+b") as f:  # another writer appends between the call and the first next()
                         f.truncate(L + max(1, delta) + 1)
                     fsseam.AUDIT.enabled = True
@@ -558,6 +560,12 @@ def _run_limit(case, viol, probes, log):
                 fsseam.AUDIT.enabled = False
             opened = [e for e in fsseam.AUDIT.events[ev0:] if e[0] == "open" and os.path.realpath(e[1]) == os.path.realpath(p)]
             must_refuse = L > 0 and size > L
+            if grows:
+                # only a read that happened AFTER the growth consumed an over-limit file (an implementation that stats and reads
+                # eagerly at call time has read the small file and is fine)
+                opened_after = [e for e in fsseam.AUDIT.events[ev_growth:] if e[0] == "open" and os.path.realpath(e[1]) == os.path.realpath(p)]
+                must_refuse = bool(opened_after) or isinstance(exc, ExtractionFileTooLargeError)
+                opened = opened_after
             probes["limit_file_size_disabled" if L == 0 else "limit_file_size_exact"] = 1
             log.ev("file_limit", L, size, type(exc).__name__ if exc else None, len(opened))
             if must_refuse:
